@@ -636,11 +636,24 @@ func (d *ColumnDetector) createColumnsFromGaps(fragments []text.TextFragment, ga
 		// Find which column this fragment belongs to
 		fragCenter := f.X + f.Width/2
 
+		assigned := false
 		for i := range columns {
 			if fragCenter >= boundaries[i].left && fragCenter < boundaries[i].right {
 				columns[i].Fragments = append(columns[i].Fragments, f)
+				assigned = true
 				break
 			}
+		}
+
+		// The intervals are half-open, so a fragment centred exactly on the right
+		// edge of the content (a zero-width fragment at the end of the widest line)
+		// falls outside all of them. It belongs to the outermost column on that side.
+		if !assigned {
+			i := len(columns) - 1
+			if fragCenter < boundaries[0].left {
+				i = 0
+			}
+			columns[i].Fragments = append(columns[i].Fragments, f)
 		}
 	}
 
